@@ -220,7 +220,8 @@ static void life_case (long idx, vf_rng *r)
         else if (t->kind <= 1) {
             if (!cache) { LIB (cache = pixman_glyph_cache_create ()); if (!cache) continue; }
             if (nglyph < 32 && vf_chance (r, 2, 3)) { if (!frozen) { LIB (pixman_glyph_cache_freeze (cache)); frozen = 1; }
-                const void *g; int key = s + 1; LIB (g = pixman_glyph_cache_insert (cache, (void *)(uintptr_t)0x10, (void *)(uintptr_t)(key * 8), 1, 1, t->img)); if (g) gkeys[nglyph++] = key; H (" G%d", t->id); vf_count ("glyph_inserts", 1); }
+                const void *g; int key = s + 1; if (nglyph && vf_chance (r, 1, 3)) { key = gkeys[vf_next (r) % nglyph]; vf_count ("glyph_inserts_of_a_key_already_present", 1); }     /* a second entry for a key that is present: legal, the entries shadow each other and are all released with the cache */
+                LIB (g = pixman_glyph_cache_insert (cache, (void *)(uintptr_t)0x10, (void *)(uintptr_t)(key * 8), 1, 1, t->img)); if (g) gkeys[nglyph++] = key; H (" G%d", t->id); vf_count ("glyph_inserts", 1); }
             else if (nglyph) { int key = gkeys[--nglyph]; const void *g; LIB (g = pixman_glyph_cache_lookup (cache, (void *)(uintptr_t)0x10, (void *)(uintptr_t)(key * 8))); if (g) LIB (pixman_glyph_cache_remove (cache, (void *)(uintptr_t)0x10, (void *)(uintptr_t)(key * 8))); H (" g"); vf_count ("glyph_removes", 1); }
             else if (frozen) { LIB (pixman_glyph_cache_thaw (cache)); frozen = 0; }
         }
